@@ -654,41 +654,63 @@ pub struct ModelProg {
     pub cod_rel: usize,
     pub member_rels: Vec<usize>,
     pub constants: Vec<usize>,
+    /// member types: (sort, membership relation, morphism-application function)
+    pub member_sorts: Vec<(usize, usize, usize)>,
 }
 
-fn mterm(p: &Program, mp: (usize, usize), t: &Term) -> String {
+/// how the flat view is printed as surface syntax
+struct MCtx<'a> {
+    members: &'a [usize],
+    mor_sort: usize,
+    model_sort: usize,
+    /// (membership relation, application function) of the member type, if the program has one
+    member_type: Option<(usize, usize)>,
+}
+
+fn mterm(p: &Program, mp: (usize, usize), cx: &MCtx, t: &Term) -> String {
     match t {
         Term::Var(v) => v.clone(),
         Term::Wild => "_".into(),
         Term::App(r, args) => {
             if *r == mp.0 {
-                format!("dom({})", mterm(p, mp, &args[0]))
+                format!("dom({})", mterm(p, mp, cx, &args[0]))
             } else if *r == mp.1 {
-                format!("cod({})", mterm(p, mp, &args[0]))
+                format!("cod({})", mterm(p, mp, cx, &args[0]))
+            } else if cx.member_type.map(|(_, app)| app == *r).unwrap_or(false) {
+                format!("{}@({})", mterm(p, mp, cx, &args[0]), mterm(p, mp, cx, &args[1]))
+            } else if cx.members.contains(r) {
+                let rest: Vec<String> = args[1..].iter().map(|x| mterm(p, mp, cx, x)).collect();
+                format!("{}.{}({})", mterm(p, mp, cx, &args[0]), p.rels[*r].name, rest.join(", "))
             } else {
-                let a: Vec<String> = args.iter().map(|x| mterm(p, mp, x)).collect();
+                let a: Vec<String> = args.iter().map(|x| mterm(p, mp, cx, x)).collect();
                 format!("{}({})", p.rels[*r].name, a.join(", "))
             }
         }
     }
 }
 
-fn matom(p: &Program, mp: (usize, usize), members: &[usize], mor_sort: usize, model_sort: usize, a: &Atom) -> String {
+fn matom(p: &Program, mp: (usize, usize), cx: &MCtx, a: &Atom) -> String {
     match a {
-        Atom::Pred(r, args) if members.contains(r) => {
-            let rest: Vec<String> = args[1..].iter().map(|x| mterm(p, mp, x)).collect();
-            format!("{}.{}({})", mterm(p, mp, &args[0]), p.rels[*r].name, rest.join(", "))
+        Atom::Pred(r, args) if cx.member_type.map(|(ms, _)| ms == *r).unwrap_or(false) => {
+            let el = match &p.sorts[p.rels[*r].args[1]] {
+                s => s.name.clone(),
+            };
+            format!("{}: {}.{}", mterm(p, mp, cx, &args[1]), mterm(p, mp, cx, &args[0]), el)
+        }
+        Atom::Pred(r, args) if cx.members.contains(r) => {
+            let rest: Vec<String> = args[1..].iter().map(|x| mterm(p, mp, cx, x)).collect();
+            format!("{}.{}({})", mterm(p, mp, cx, &args[0]), p.rels[*r].name, rest.join(", "))
         }
         Atom::Pred(r, args) => {
-            let a: Vec<String> = args.iter().map(|x| mterm(p, mp, x)).collect();
+            let a: Vec<String> = args.iter().map(|x| mterm(p, mp, cx, x)).collect();
             format!("{}({})", p.rels[*r].name, a.join(", "))
         }
-        Atom::Eq(l, r) => format!("{} = {}", mterm(p, mp, l), mterm(p, mp, r)),
-        Atom::Defined(t) => format!("{}!", mterm(p, mp, t)),
-        Atom::DefinedAs(v, t) => format!("{} := {}!", v, mterm(p, mp, t)),
+        Atom::Eq(l, r) => format!("{} = {}", mterm(p, mp, cx, l), mterm(p, mp, cx, r)),
+        Atom::Defined(t) => format!("{}!", mterm(p, mp, cx, t)),
+        Atom::DefinedAs(v, t) => format!("{} := {}!", v, mterm(p, mp, cx, t)),
         Atom::SortOf(v, s) => {
-            if *s == mor_sort {
-                format!("{}: Mor({})", v, p.sorts[model_sort].name)
+            if *s == cx.mor_sort {
+                format!("{}: Mor({})", v, p.sorts[cx.model_sort].name)
             } else {
                 format!("{}: {}", v, p.sorts[*s].name)
             }
@@ -851,6 +873,12 @@ pub fn gen_model_program(rng: &mut Rng) -> ModelProg {
         rules.push(Rule { name: Some(names[i % names.len()].to_string()), stmts });
     }
     let n_user_rules = rules.len();
+    let cx = MCtx {
+        members: &member_rels,
+        mor_sort,
+        model_sort,
+        member_type: None,
+    };
     // text
     let mut text = String::new();
     let _ = writeln!(text, "type Ca;");
@@ -877,10 +905,10 @@ pub fn gen_model_program(rng: &mut Rng) -> ModelProg {
         for s in &rule.stmts {
             match s {
                 Stmt::If(a) => {
-                    let _ = writeln!(text, "    if {};", matom(&p, (dom_rel, cod_rel), &member_rels, mor_sort, model_sort, a));
+                    let _ = writeln!(text, "    if {};", matom(&p, (dom_rel, cod_rel), &cx, a));
                 }
                 Stmt::Then(a) => {
-                    let _ = writeln!(text, "    then {};", matom(&p, (dom_rel, cod_rel), &member_rels, mor_sort, model_sort, a));
+                    let _ = writeln!(text, "    then {};", matom(&p, (dom_rel, cod_rel), &cx, a));
                 }
                 _ => {}
             }
@@ -916,5 +944,258 @@ pub fn gen_model_program(rng: &mut Rng) -> ModelProg {
         cod_rel,
         member_rels,
         constants,
+        member_sorts: Vec::new(),
+    }
+}
+
+// ---------------------------------------------------------------------------------------------
+// programs whose model declaration has a member *type* (C17: "with member-typed components
+// replaced by their images")
+
+/// A program `model Mo { type El; pred mp(El); [pred mq(El, Ca); pred mr(El, El); func mf(El) -> El;] }`
+/// with global observers and rules drawn from templates. The flat view treats `El` as an ordinary
+/// sort with the membership relation `mo_member_el(Mo, El)` and the morphism application
+/// `el_mor_app(MoMor, El) -> El`, exactly as the generated API does; inheritance of a member
+/// relation is the flat rule `r(a, xs) & dom(f) = a & cod(f) = b & xs' = f@xs => r(b, xs')`, which
+/// only fires where the images of all member-typed components are defined.
+pub fn gen_member_program(rng: &mut Rng) -> ModelProg {
+    use std::fmt::Write;
+    let mut p = Program::default();
+    p.sorts.push(Sort { name: "Ca".into(), kind: SortKind::Plain });
+    let ca = 0usize;
+    let model_sort = p.sorts.len();
+    p.sorts.push(Sort { name: "Mo".into(), kind: SortKind::Plain });
+    let mor_sort = p.sorts.len();
+    p.sorts.push(Sort { name: "MoMor".into(), kind: SortKind::Plain });
+    let el = p.sorts.len();
+    // membership_rel is patched below once its index is known
+    p.sorts.push(Sort { name: "El".into(), kind: SortKind::Member { model_sort, membership_rel: usize::MAX } });
+    let has_mq = rng.chance(3, 4);
+    let has_mr = rng.chance(3, 4);
+    let has_mf = rng.chance(1, 2);
+    let mut member_rels = Vec::new();
+    let mp_rel = p.rels.len();
+    member_rels.push(mp_rel);
+    p.rels.push(Rel { name: "mp".into(), kind: RelKind::Pred, args: vec![model_sort, el], result: None });
+    let mq = p.rels.len();
+    if has_mq {
+        member_rels.push(mq);
+        p.rels.push(Rel { name: "mq".into(), kind: RelKind::Pred, args: vec![model_sort, el, ca], result: None });
+    }
+    let mr = p.rels.len();
+    if has_mr {
+        member_rels.push(mr);
+        p.rels.push(Rel { name: "mr".into(), kind: RelKind::Pred, args: vec![model_sort, el, el], result: None });
+    }
+    let mf = p.rels.len();
+    if has_mf {
+        member_rels.push(mf);
+        p.rels.push(Rel { name: "mf".into(), kind: RelKind::Func, args: vec![model_sort, el], result: Some(el) });
+    }
+    let ga = p.rels.len();
+    p.rels.push(Rel { name: "ga".into(), kind: RelKind::Pred, args: vec![ca], result: None });
+    let gm = p.rels.len();
+    p.rels.push(Rel { name: "gm".into(), kind: RelKind::Pred, args: vec![model_sort, ca], result: None });
+    let gmo = p.rels.len();
+    p.rels.push(Rel { name: "gmo".into(), kind: RelKind::Pred, args: vec![model_sort], result: None });
+    let dom_rel = p.rels.len();
+    p.rels.push(Rel { name: "mo_mor_dom".into(), kind: RelKind::Func, args: vec![mor_sort], result: Some(model_sort) });
+    let cod_rel = p.rels.len();
+    p.rels.push(Rel { name: "mo_mor_cod".into(), kind: RelKind::Func, args: vec![mor_sort], result: Some(model_sort) });
+    let app = p.rels.len();
+    p.rels.push(Rel { name: "el_mor_app".into(), kind: RelKind::Func, args: vec![mor_sort, el], result: Some(el) });
+    let mem = p.rels.len();
+    p.rels.push(Rel { name: "mo_member_el".into(), kind: RelKind::Pred, args: vec![model_sort, el], result: None });
+    p.sorts[el].kind = SortKind::Member { model_sort, membership_rel: mem };
+
+    let v = |n: &str| Term::Var(n.to_string());
+    let m_is_mo = || Stmt::If(Atom::SortOf("m".into(), model_sort));
+    // (template, needs mq, needs mr, needs mf)
+    let all: [(usize, bool, bool, bool); 14] = [
+        (0, true, false, false),
+        (1, true, false, false),
+        (2, false, false, true),
+        (3, false, true, false),
+        (4, false, false, false),
+        (5, true, false, false),
+        (6, false, true, false),
+        (7, false, false, false),
+        (8, false, true, false),
+        (9, false, true, true),
+        (10, true, true, false),
+        (11, false, true, false),
+        (12, true, false, false),
+        (13, false, false, false),
+    ];
+    let mut templates: Vec<usize> = all
+        .iter()
+        .filter(|(_, q, r, f)| (!*q || has_mq) && (!*r || has_mr) && (!*f || has_mf))
+        .map(|(t, _, _, _)| *t)
+        .collect();
+    rng.shuffle(&mut templates);
+    templates.truncate(rng.range(2, 6) as usize);
+    templates.sort();
+    let names = ["ra", "rb", "rc", "rd", "re", "rf", "rg"];
+    let mut rules: Vec<Rule> = Vec::new();
+    for (i, t) in templates.iter().enumerate() {
+        let stmts = match t {
+            // member fact observed by a global (non-inherited) predicate
+            0 => vec![m_is_mo(), Stmt::If(Atom::Pred(mq, vec![v("m"), Term::Wild, v("c")])), Stmt::Then(Atom::Pred(gm, vec![v("m"), v("c")]))],
+            1 => vec![m_is_mo(), Stmt::If(Atom::Pred(mq, vec![v("m"), v("x"), Term::Wild])), Stmt::Then(Atom::Pred(mp_rel, vec![v("m"), v("x")]))],
+            2 => vec![
+                m_is_mo(),
+                Stmt::If(Atom::Eq(v("y"), Term::App(mf, vec![v("m"), v("x")]))),
+                Stmt::If(Atom::Pred(mp_rel, vec![v("m"), v("x")])),
+                Stmt::Then(Atom::Pred(mp_rel, vec![v("m"), v("y")])),
+            ],
+            3 => vec![
+                m_is_mo(),
+                Stmt::If(Atom::Pred(mr, vec![v("m"), v("x"), v("y")])),
+                Stmt::If(Atom::Pred(mp_rel, vec![v("m"), v("x")])),
+                Stmt::Then(Atom::Eq(v("x"), v("y"))),
+            ],
+            4 => vec![m_is_mo(), Stmt::If(Atom::Pred(mp_rel, vec![v("m"), Term::Wild])), Stmt::Then(Atom::Pred(gmo, vec![v("m")]))],
+            5 => vec![
+                m_is_mo(),
+                Stmt::If(Atom::Pred(mp_rel, vec![v("m"), v("x")])),
+                Stmt::If(Atom::Pred(ga, vec![v("c")])),
+                Stmt::Then(Atom::Pred(mq, vec![v("m"), v("x"), v("c")])),
+            ],
+            6 => vec![m_is_mo(), Stmt::If(Atom::Pred(mr, vec![v("m"), v("x"), v("y")])), Stmt::Then(Atom::Pred(mr, vec![v("m"), v("y"), v("x")]))],
+            7 => vec![
+                m_is_mo(),
+                Stmt::If(Atom::Pred(mem, vec![v("m"), v("x")])),
+                Stmt::If(Atom::Pred(gmo, vec![v("m")])),
+                Stmt::Then(Atom::Pred(mp_rel, vec![v("m"), v("x")])),
+            ],
+            // a rule that itself pushes a fact forward along a morphism
+            8 => vec![
+                m_is_mo(),
+                Stmt::If(Atom::Pred(mp_rel, vec![v("m"), v("x")])),
+                Stmt::If(Atom::Eq(Term::App(dom_rel, vec![v("f")]), v("m"))),
+                Stmt::If(Atom::Eq(v("n"), Term::App(cod_rel, vec![v("f")]))),
+                Stmt::If(Atom::Eq(v("y"), Term::App(app, vec![v("f"), v("x")]))),
+                Stmt::Then(Atom::Pred(mr, vec![v("n"), v("y"), v("y")])),
+            ],
+            9 => vec![
+                m_is_mo(),
+                Stmt::If(Atom::Pred(mr, vec![v("m"), v("x"), v("y")])),
+                Stmt::If(Atom::Eq(v("z"), Term::App(mf, vec![v("m"), v("x")]))),
+                Stmt::Then(Atom::Eq(Term::App(mf, vec![v("m"), v("y")]), v("z"))),
+            ],
+            10 => vec![
+                m_is_mo(),
+                Stmt::If(Atom::Pred(mq, vec![v("m"), v("x"), v("c")])),
+                Stmt::If(Atom::Pred(mq, vec![v("m"), v("y"), v("c")])),
+                Stmt::Then(Atom::Pred(mr, vec![v("m"), v("x"), v("y")])),
+            ],
+            11 => vec![m_is_mo(), Stmt::If(Atom::Pred(mr, vec![v("m"), v("x"), v("x")])), Stmt::Then(Atom::Pred(mp_rel, vec![v("m"), v("x")]))],
+            12 => vec![
+                Stmt::If(Atom::Pred(gm, vec![v("m"), v("c")])),
+                Stmt::If(Atom::Pred(mem, vec![v("m"), v("x")])),
+                Stmt::If(Atom::Pred(mp_rel, vec![v("m"), v("x")])),
+                Stmt::Then(Atom::Pred(mq, vec![v("m"), v("x"), v("c")])),
+            ],
+            // two models that share a fact kind: observed per pair of models
+            _ => vec![
+                m_is_mo(),
+                Stmt::If(Atom::Pred(mp_rel, vec![v("m"), Term::Wild])),
+                Stmt::If(Atom::Pred(ga, vec![v("c")])),
+                Stmt::Then(Atom::Pred(gm, vec![v("m"), v("c")])),
+            ],
+        };
+        rules.push(Rule { name: Some(names[i % names.len()].to_string()), stmts });
+    }
+    let n_user_rules = rules.len();
+    let cx = MCtx {
+        members: &member_rels,
+        mor_sort,
+        model_sort,
+        member_type: Some((mem, app)),
+    };
+    let mut text = String::new();
+    let _ = writeln!(text, "type Ca;");
+    let _ = writeln!(text, "model Mo {{");
+    let _ = writeln!(text, "    type El;");
+    for r in &member_rels {
+        let rel = &p.rels[*r];
+        let args: Vec<String> = rel.args[1..].iter().enumerate().map(|(i, s)| format!("{}: {}", ["x", "y", "z"][i], p.sorts[*s].name)).collect();
+        match rel.result {
+            None => {
+                let _ = writeln!(text, "    pred {}({});", rel.name, args.join(", "));
+            }
+            Some(res) => {
+                let _ = writeln!(text, "    func {}({}) -> {};", rel.name, args.join(", "), p.sorts[res].name);
+            }
+        }
+    }
+    let _ = writeln!(text, "}}");
+    for r in [ga, gm, gmo] {
+        let rel = &p.rels[r];
+        let args: Vec<String> = rel.args.iter().map(|s| p.sorts[*s].name.clone()).collect();
+        let _ = writeln!(text, "pred {}({});", rel.name, args.join(", "));
+    }
+    for rule in &rules {
+        let _ = writeln!(text, "rule {} {{", rule.name.clone().unwrap());
+        for s in &rule.stmts {
+            match s {
+                Stmt::If(a) => {
+                    let _ = writeln!(text, "    if {};", matom(&p, (dom_rel, cod_rel), &cx, a));
+                }
+                Stmt::Then(a) => {
+                    let _ = writeln!(text, "    then {};", matom(&p, (dom_rel, cod_rel), &cx, a));
+                }
+                _ => {}
+            }
+        }
+        let _ = writeln!(text, "}}");
+    }
+    // implicit inheritance along f: a -> b, member-typed components replaced by their images
+    for r in &member_rels {
+        let rel = p.rels[*r].clone();
+        let cols = rel.column_sorts();
+        let n = cols.len();
+        let src: Vec<Term> = (1..n).map(|i| v(["x", "y", "z"][i - 1])).collect();
+        let mut stmts = Vec::new();
+        let mut from = vec![v("a")];
+        from.extend(src.iter().cloned());
+        if rel.is_func() {
+            let res = from.pop().unwrap();
+            stmts.push(Stmt::If(Atom::Eq(Term::App(*r, from), res)));
+        } else {
+            stmts.push(Stmt::If(Atom::Pred(*r, from)));
+        }
+        stmts.push(Stmt::If(Atom::Eq(Term::App(dom_rel, vec![v("f")]), v("a"))));
+        stmts.push(Stmt::If(Atom::Eq(Term::App(cod_rel, vec![v("f")]), v("b"))));
+        let mut to = vec![v("b")];
+        for i in 1..n {
+            if cols[i] == el {
+                let img = format!("{}i", ["x", "y", "z"][i - 1]);
+                stmts.push(Stmt::If(Atom::Eq(v(&img), Term::App(app, vec![v("f"), src[i - 1].clone()]))));
+                to.push(v(&img));
+            } else {
+                to.push(src[i - 1].clone());
+            }
+        }
+        if rel.is_func() {
+            let res = to.pop().unwrap();
+            stmts.push(Stmt::Then(Atom::Eq(Term::App(*r, to), res)));
+        } else {
+            stmts.push(Stmt::Then(Atom::Pred(*r, to)));
+        }
+        rules.push(Rule { name: Some(format!("inherit_{}", rel.name)), stmts });
+    }
+    p.rules = rules;
+    ModelProg {
+        program: p,
+        text,
+        n_user_rules,
+        model_sort,
+        mor_sort,
+        dom_rel,
+        cod_rel,
+        member_rels,
+        constants: Vec::new(),
+        member_sorts: vec![(el, mem, app)],
     }
 }
